@@ -102,13 +102,34 @@ theorem history_invariant (coord : Coord) (v : Vol) (ops : List Op) (w : VStep) 
   let s := runHistory_pos ops hp h
   ⟨s.retained, s.orth, s.shape⟩
 
-/-- **History invariant, values and channels**: over any sequence of spatial operations a surviving voxel holds
-its original value in every channel, and the channel descriptors and values are those of the original. -/
+/-- **History invariant, values — every history without `with_array`** (spatial operations freely mixed with channel
+selection and channel permutation): if the composed provenance of final voxel `j` is original voxel `i`, then at every
+channel index `c` the final array holds the ORIGINAL value at voxel `i` and at the composed source channel index
+`historyChanSrc … c` (channel operations act as index maps on the channel axes, `Op.chanSrc`; spatial operations leave the
+channel index alone).  `with_array` replaces the values by definition; the statement then applies to the history after
+it (the theorem holds for every starting volume). -/
+theorem history_values_mixed (coord : Coord) (v : Vol) (ops : List Op) (w : VStep) (hp : v.geom.Pos)
+    (hs : ∀ op ∈ ops, op.isWithArray = false) (h : runHistory coord v ops = .ok w) (j i : I3) (hj : w.2 j = some i)
+    (c : List Nat) : w.1.arr j c = v.arr i (historyChanSrc coord v ops c) :=
+  runHistory_val_all ops hp hs h j i hj c
+
+/-- What the channel provenance of one step is on the cells of a volume with two channel dimensions: selection puts the
+selected index back (with keepdims: replaces the 0), permutation swaps the indices back. -/
+theorem channel_provenance_two_dims (v : Vol) (a b : Nat) (hs : v.cshape = [a, b]) (k x y : Nat) :
+    Op.chanSrc v (.getChannel [(0, k)] false) [y] = [k, y] ∧ Op.chanSrc v (.getChannel [(1, k)] false) [y] = [y, k] ∧
+    Op.chanSrc v (.getChannel [(0, k)] true) [0, y] = [k, y] ∧ Op.chanSrc v (.getChannel [(1, k)] true) [y, 0] = [y, k] ∧
+    Op.chanSrc v (.permuteChannels [1, 0]) [x, y] = [y, x] ∧ Op.chanSrc v (.permuteChannels [0, 1]) [x, y] = [x, y] :=
+  chanSrc_two v a b hs k x y
+
+/-- **History invariant, values and channels, spatial histories**: there the channel provenance is the identity — a
+surviving voxel holds its original value in every channel — and the channel shape, descriptors and values are those of
+the original. -/
 theorem history_values (coord : Coord) (v : Vol) (ops : List Op) (w : VStep) (hp : v.geom.Pos)
     (hs : ∀ op ∈ ops, op.isSpatial = true) (h : runHistory coord v ops = .ok w) :
-    (∀ j i, w.2 j = some i → ∀ c, w.1.arr j c = v.arr i c) ∧ w.1.cshape = v.cshape ∧ w.1.chans = v.chans :=
+    (∀ j i, w.2 j = some i → ∀ c, w.1.arr j c = v.arr i c) ∧ w.1.cshape = v.cshape ∧ w.1.chans = v.chans ∧
+    (∀ c, historyChanSrc coord v ops c = c) :=
   let s := runHistory_val ops hp hs h
-  ⟨s.values, s.cshape, s.chans⟩
+  ⟨s.values, s.cshape, s.chans, historyChanSrc_spatial ops hs h⟩
 
 /-- The geometry-only object taken through the same history is accepted at every step and ends with the
 volume's geometry (shape and affine). -/
@@ -396,5 +417,18 @@ example : (permuteChannelsV v0 [1, 0]).toBool = true ∧ (getChannelV v0 [(0, 1)
 
 example : ((SOp.pad (.nested [[1, 0], [0, 2], [3, 3]]) ⟨"MEDIAN", 0, true⟩).applyVol .patient v0).toBool = true := by
   decide +kernel
+
+/-- a mixed history (flip, select a channel, pad per channel, permute the remaining channel axes, crop with a negative
+step) is accepted on `v0`, and the final channel cell `[2]` comes from the original cell `[1, 2]` -/
+def mixedOps : List Op :=
+  [.spatial (.flip [0, 2]), .getChannel [(0, 1)] false, .spatial (.pad (.int 1) ⟨"MAXIMUM", 0, true⟩),
+   .permuteChannels [0], .spatial (.getitem [.slice none none (some (-2)), .int 0])]
+
+example : (runHistory .patient v0 mixedOps).toBool = true ∧ (∀ op ∈ mixedOps, op.isWithArray = false) ∧
+    historyChanSrc .patient v0 mixedOps [2] = [1, 2] := by
+  refine ⟨by decide +kernel, ?_, by decide +kernel⟩
+  intro op hop
+  simp only [mixedOps, List.mem_cons, List.not_mem_nil, or_false] at hop
+  rcases hop with rfl | rfl | rfl | rfl | rfl <;> rfl
 
 end HdVerif.C08
